@@ -214,6 +214,44 @@ fn main() {
                 writeln!(f, "{}", json!({"e":"end","i":i,"ok":ok,"rules": if ok { obs["rules"].clone() } else { json!([]) }, "kind": obs["kind"]})).unwrap();
             }
         }
+        "yaml2json" => {
+            // YAML (stdin) -> JSON (stdout) through serde_yaml; used by the CLI extractors
+            let mut txt = String::new();
+            std::io::Read::read_to_string(&mut std::io::stdin(), &mut txt).unwrap();
+            match serde_yaml::from_str::<serde_json::Value>(&txt) {
+                Ok(v) => println!("{}", v),
+                Err(e) => {
+                    eprintln!("yaml error: {}", e);
+                    std::process::exit(3);
+                }
+            }
+        }
+        "render-many" => {
+            // {"prog":..,"doc":..} per line -> {"rules":text,"data":text} per line
+            let stdin = std::io::stdin();
+            for l in stdin.lock().lines() {
+                let l = l.unwrap();
+                if l.trim().is_empty() { continue; }
+                let j: J = serde_json::from_str(&l).unwrap();
+                let rules = if j["prog"].is_null() { J::Null } else { json!(render::render_file(&j["prog"])) };
+                let data = if j["doc"].is_null() { J::Null } else { json!(val::to_json_text(&j["doc"])) };
+                println!("{}", json!({"rules": rules, "data": data}));
+            }
+        }
+        "gen" => {
+            // n random (prog, doc) pairs as JSON lines (no execution)
+            let seed: u64 = m.get("seed").and_then(|s| s.parse().ok()).unwrap_or(1);
+            let n: usize = m.get("n").and_then(|s| s.parse().ok()).unwrap_or(10);
+            let cfg = cfg_of(m.get("cfg").map(|s| s.as_str()).unwrap_or("core"));
+            let mut r = Rng::new(seed);
+            for _ in 0..n {
+                let mut rr = r.fork();
+                let mut g = gen::Gen { r: &mut rr, cfg: cfg.clone() };
+                let doc = g.doc();
+                let prog = g.program(&doc);
+                println!("{}", json!({"prog": prog, "doc": doc, "rules": render::render_file(&prog), "data": val::to_json_text(&doc)}));
+            }
+        }
         "reobserve" => {
             // re-run one recorded line against the current implementation
             let stdin = std::io::stdin();
